@@ -11,8 +11,10 @@ TRUSTED_BASE = [
 
 REG = {
     "C06": {
-        "module": "NirVerif.Properties.C06",
-        "theorems": ["NirVerif.C06.axis", "NirVerif.C06.axis_no_fit"],
+        "module": "NirVerif.Properties.C06Model",
+        "theorems": ["NirVerif.C06.axis", "NirVerif.C06.axis_no_fit", "NirVerif.C06.conv_out_slide", "NirVerif.C06.forms",
+                     "NirVerif.C06.scalar_form", "NirVerif.C06.reads_tuple", "NirVerif.C06.reads_list",
+                     "NirVerif.C06.reads_ndarray", "NirVerif.C06.same_keeps", "NirVerif.C06.valid_is_zero"],
         "translator": ["T4"],
         "run": c06.run,
         "rule": "Per-axis (n,p,d,k,s) enumerated over the small scope, random 2-d hyper-parameter sets in every "
@@ -20,8 +22,13 @@ REG = {
                 "sliding-window loop (thorough: a real zero-padded strided dilated correlation).",
         "level_text": "Kernel-checked theorems: the per-axis formula the translator extracts from calculate_conv_output "
                       "equals the sliding-window position count for all sizes/kernels/strides/paddings/dilations (and is "
-                      "<= 0 when the kernel does not fit). The isinstance dispatch, Conv1d/Conv2d constructors and the "
-                      "inference path are hand-modelled and tied by differential testing plus an independent oracle.",
+                      "<= 0 when the kernel does not fit); and about the hand-written model of the function around it "
+                      "(isinstance dispatch, _index_tuple, 'valid'/'same'): on integer tuples with any number of axes it "
+                      "returns exactly the sliding-window counts (conv_out_slide); any two argument tuples with the same "
+                      "integer readings - scalar, tuple, list, ndarray of any integer dtype - give the same result (forms, "
+                      "scalar_form, reads_*); 'same' keeps the spatial size and 'valid' is zero padding. The embedding in "
+                      "the inference loop (Conv1d/Conv2d/pooling recomputation) is proved in C08 (stepNode_conv2d/1d/pool); "
+                      "the Conv constructors are hand-modelled and tied by differential testing plus an independent oracle.",
         "level_note": "Lean kernel + translator T4 + correspondence sampling for the glue; float64 vs exact rationals below 2^52.",
         "technique": "Lean 4 proof over translator-generated kernel + model/implementation correspondence",
         "assumptions": ["calculate_conv_output computes in float64, the theorem in exact rationals: equal while "
@@ -230,14 +237,19 @@ _reg("C15", c15.run, translator=("T1", "T3"),
                 "and exhibited only by the correspondence/oracle run on a real path.")
 _reg("C16", c16.run,
      theorems=["NirVerif.C16.leaf_back", "NirVerif.C16.carried", "NirVerif.C16.no_extra_keys", "NirVerif.C16.inert_members",
-               "NirVerif.C16.inert_inference", "NirVerif.C16.inert_infer_types"],
+               "NirVerif.C16.inert_inference", "NirVerif.C16.inert_infer_types", "NirVerif.C16.inert_construction",
+               "NirVerif.C16.inert_step", "NirVerif.C16.inert_check"],
      rule="Graphs with and without metadata trees (depth 0..4, unicode keys/strings, empty strings, bools, ints, floats, "
           "arrays, nested and empty dicts) on random subsets of nodes and sub-graphs: metadata compared after read, the raw "
           "HDF5 trees outside */metadata compared with and without metadata, node types / type check / inference compared.",
      level_text="Kernel-checked: every leaf of a metadata tree, at any depth on a graph or node at any depth, is returned "
                 "under the same keys and nesting as the equal string/number/array, no key is added; the dataset stored for "
-                "any other entry depends only on that entry (file inertness per member); inference never reads or changes "
-                "metadata. Whole-file inertness and inertness of construction-time types are checked by the oracle.",
+                "any other entry depends only on that entry (file inertness per member); inference never changes metadata; "
+                "construction (__post_init__ of every primitive) with metadata attached gives the same node up to its "
+                "metadata field (inert_construction, by exhausting all branches); the inference loop body computes the same "
+                "types, input_shape and error whatever metadata the two nodes carry (inert_step); the type check gives the "
+                "same verdict on every edge under any re-assignment of metadata (inert_check). Whole-file inertness is "
+                "checked by the oracle.",
      level_note="Lean kernel; hand-written models of to_dict/from_dict/write/read and of the h5py contract (create_dataset conversions, item[()], link names, iteration order), validated against the real library and real files on every run.")
 _reg("C17", c17.run,
      theorems=["NirVerif.C17.pure", "NirVerif.C17.pure_history", "NirVerif.C17.read_deterministic"],
